@@ -827,6 +827,16 @@ class Fallback(Harness):
         yield 'all-closed-at-exit', obs['unclosed'] == 0
 
 
+def _worker_keeps():
+    from props.c07 import WorkerConfig
+
+    class WorkerKeepsOptions(WorkerConfig):
+        """(C19 view) --skip-rate-test and every other option reach the per-target configuration of a target-list scan"""
+        prop, ob = PROP, 'O3'
+        name = 'worker-keeps-skip-rate-test-and-all-other-options'
+    return WorkerKeepsOptions()
+
+
 def tasks(tier):
     q = tier == 'quick'
     T = []
@@ -858,6 +868,7 @@ def tasks(tier):
                 continue        # three live sockets in one iteration: thorough tier
             T.append(RateStep(n, k))
     T.append(rate_init_glue)
+    T.append(_worker_keeps())
     return T
 
 
@@ -870,6 +881,8 @@ def harness_by_name(name, params):
         return HostKeyPhase(p['keytypes'])
     if k == 'gexphase':
         return GexPhase(p['algs'], p['openssh'])
+    if k == 'worker':
+        return _worker_keeps()
     if k == 'rateopenstep':
         return RateOpenStep(p['n'])
     if k == 'ratestep':
